@@ -311,7 +311,21 @@ class MBTilesCache(TileCacheBase):
             # This sets the timestamp of the tile to epoch (1970s)
             tile.timestamp = -1
         else:
-            self.load_tile(tile, dimensions=dimensions)
+            # read the time stamp that is stored now: the tile object may have
+            # been loaded before another request replaced the tile (re-check
+            # under the tile lock)
+            cur = self.db.cursor()
+            cur.execute('''SELECT last_modified, length(tile_data) FROM tiles
+                WHERE tile_column = ? AND
+                      tile_row = ? AND
+                      zoom_level = ?''', tile.coord)
+            row = cur.fetchone()
+            if row:
+                tile.timestamp = sqlite_datetime_to_timestamp(row[0])
+                tile.size = row[1]
+            else:
+                tile.timestamp = 0
+                tile.size = 0
 
 
 class MBTilesLevelCache(TileCacheBase):
@@ -409,7 +423,7 @@ class MBTilesLevelCache(TileCacheBase):
         return self._get_level(tile.coord[2]).remove_tile(tile)
 
     def load_tile_metadata(self, tile, dimensions=None):
-        self.load_tile(tile, dimensions=dimensions)
+        self._get_level(tile.coord[2]).load_tile_metadata(tile, dimensions=dimensions)
 
     def remove_level_tiles_before(self, level, timestamp=None, remove_all=False):
         level_cache = self._get_level(level)
